@@ -542,7 +542,7 @@ fn many_messages(v: &(u16, bool, Vec<(bool, u16, u16, u8, bool)>), rep: &mut Rep
         for q in reqs.iter().filter(|q| q.4) {
             asked.push(ask(&mut s, q)?);
         }
-        ensure!(s.c.wait_for(Duration::from_secs(40), &|log| log.iter().any(|f| matches!(f, Frame::FileInfo(n) if *n as usize >= total))), "the server reports {:?} of the {} messages of the file", s.c.last_file_info(), total);
+        ensure!(s.c.wait_for(Duration::from_secs(150), &|log| log.iter().any(|f| matches!(f, Frame::FileInfo(n) if *n as usize >= total))), "the server reports {:?} of the {} messages of the file", s.c.last_file_info(), total);
         s.c.pump(Duration::from_millis(300));
         for q in reqs.iter().filter(|q| !q.4) {
             asked.push(ask(&mut s, q)?);
@@ -565,7 +565,7 @@ fn many_messages(v: &(u16, bool, Vec<(bool, u16, u16, u8, bool)>), rep: &mut Rep
                 }
                 if *is_query { ended } else { n >= exp.len() }
             };
-            s.c.wait_for(Duration::from_secs(30), &|log| done(log));
+            s.c.wait_for(Duration::from_secs(120), &|log| done(log));
             s.c.pump(Duration::from_millis(50));
             let (got, ended, _, _) = s.frames_of(*id);
             let gi: Vec<u32> = got.iter().map(|g| g.index).collect();
